@@ -242,7 +242,7 @@ def _main_wiring(tier, seed):
             os.chdir(cwd0)
     if failures:
         import json
-        d = os.path.join(_rp.ROOT, "replays", "C18")
+        d = os.path.join(_rp.OUT, "replays", "C18")
         os.makedirs(d, exist_ok=True)
         path = os.path.join(d, "bounded_main_wiring.json")
         json.dump(dict(property="C18", obligation="bounded:vela.main wiring", failures=failures[:20]), open(path, "w"), indent=1)
